@@ -8,17 +8,21 @@
 namespace bigtiff {
 
 static uint16_t
-rd16(const std::vector<uint8_t>& b, uint64_t o)
+rd16(const Bytes& b, uint64_t o)
 {
-    return (uint16_t)(b[o] | (b[o + 1] << 8));
+    uint8_t t[2];
+    b.read(o, 2, t);
+    return (uint16_t)(t[0] | (t[1] << 8));
 }
 
 static uint64_t
-rd64(const std::vector<uint8_t>& b, uint64_t o)
+rd64(const Bytes& b, uint64_t o)
 {
+    uint8_t t[8];
+    b.read(o, 8, t);
     uint64_t v = 0;
     for (int i = 7; i >= 0; --i)
-        v = (v << 8) | b[o + (uint64_t)i];
+        v = (v << 8) | t[i];
     return v;
 }
 
@@ -61,7 +65,7 @@ Ifd::find(uint16_t tag) const
 }
 
 bool
-Ifd::scalar(uint16_t tag, const std::vector<uint8_t>& file, uint64_t* out) const
+Ifd::scalar(uint16_t tag, const Bytes& file, uint64_t* out) const
 {
     const Entry* e = find(tag);
     if (!e || e->count != 1)
@@ -84,10 +88,11 @@ Ifd::scalar(uint16_t tag, const std::vector<uint8_t>& file, uint64_t* out) const
 }
 
 std::string
-ascii(const Entry& e, const std::vector<uint8_t>& bytes)
+ascii(const Entry& e, const Bytes& bytes)
 {
-    std::string s((const char*)bytes.data() + e.data_offset,
-                  (size_t)e.data_bytes);
+    std::string s((size_t)e.data_bytes, '\0');
+    if (e.data_bytes)
+        bytes.read(e.data_offset, e.data_bytes, (uint8_t*)&s[0]);
     while (!s.empty() && s.back() == 0)
         s.pop_back();
     return s;
@@ -100,7 +105,7 @@ struct Interval
 };
 
 File
-parse(const std::vector<uint8_t>& f)
+parse(const Bytes& f)
 {
     File out;
     char msg[256];
@@ -110,7 +115,7 @@ parse(const std::vector<uint8_t>& f)
     };
     if (f.size() < 16)
         return fail("file shorter than the 16-byte BigTIFF header");
-    if (!(f[0] == 'I' && f[1] == 'I'))
+    if (!(f.at(0) == 'I' && f.at(1) == 'I'))
         return fail("byte order mark is not 'II' (little endian)");
     if (rd16(f, 2) != 43)
         return fail("version is not 43 (BigTIFF)");
@@ -128,8 +133,8 @@ parse(const std::vector<uint8_t>& f)
         if (off + 8 > f.size()) {
             snprintf(msg, sizeof(msg),
                      "directory %zu at offset %llu lies outside the file "
-                     "(%zu bytes)",
-                     out.ifds.size(), (unsigned long long)off, f.size());
+                     "(%llu bytes)",
+                     out.ifds.size(), (unsigned long long)off, (unsigned long long)f.size());
             return fail(msg);
         }
         uint64_t n = rd64(f, off);
@@ -139,9 +144,9 @@ parse(const std::vector<uint8_t>& f)
         if (end > f.size()) {
             snprintf(msg, sizeof(msg),
                      "directory %zu at offset %llu (%llu entries) extends "
-                     "past the end of the file (%zu bytes)",
+                     "past the end of the file (%llu bytes)",
                      out.ifds.size(), (unsigned long long)off,
-                     (unsigned long long)n, f.size());
+                     (unsigned long long)n, (unsigned long long)f.size());
             return fail(msg);
         }
         Ifd d;
@@ -173,10 +178,10 @@ parse(const std::vector<uint8_t>& f)
                     e.data_offset + e.data_bytes < e.data_offset) {
                     snprintf(msg, sizeof(msg),
                              "directory %zu tag %u: value at offset %llu "
-                             "(%llu bytes) lies outside the file (%zu bytes)",
+                             "(%llu bytes) lies outside the file (%llu bytes)",
                              out.ifds.size(), e.tag,
                              (unsigned long long)e.data_offset,
-                             (unsigned long long)e.data_bytes, f.size());
+                             (unsigned long long)e.data_bytes, (unsigned long long)f.size());
                     return fail(msg);
                 }
                 snprintf(msg, sizeof(msg), "directory %zu tag %u value",
@@ -196,9 +201,9 @@ parse(const std::vector<uint8_t>& f)
                 if (so + sc > f.size() || so + sc < so) {
                     snprintf(msg, sizeof(msg),
                              "directory %zu: strip at offset %llu (%llu "
-                             "bytes) lies outside the file (%zu bytes)",
+                             "bytes) lies outside the file (%llu bytes)",
                              out.ifds.size(), (unsigned long long)so,
-                             (unsigned long long)sc, f.size());
+                             (unsigned long long)sc, (unsigned long long)f.size());
                     return fail(msg);
                 }
                 snprintf(msg, sizeof(msg), "directory %zu strip",
